@@ -18,16 +18,33 @@ package shell_operator
 //@   modifies nothing
 //@ package github.com/flant/shell-operator/pkg/shell-operator
 
+// Ghost: the failedMessage of the conversion response most recently read from a task prop.
+//@ ghost lastFailedMsg string
+//@ specfn failedMsgOf(v interface{}) string
+//@   axiom dyntype(v, *conversion.Response) ==> result == v.(*conversion.Response).FailedMessage
+//@   axiom !dyntype(v, *conversion.Response) ==> result == ""
+
+//@ package github.com/flant/shell-operator/pkg/task
+// GetProp returns what was stored; the contract only defines the ghost lastFailedMsg.
+//@ trusted func Task.GetProp
+//@   modifies shell_operator.lastFailedMsg
+//@   ensures shell_operator.lastFailedMsg == shell_operator.failedMsgOf(result)
+//@ package github.com/flant/shell-operator/pkg/shell-operator
+
 // The task handler runs hooks; it never touches the ConversionRequest of the HTTP layer.
 //@ trusted func (*ShellOperator).taskHandler
 //@   modifies nothing
 
 // C15: the request handed in by the HTTP layer is not modified (the object-count check of
 // handleReviewRequest compares the answer against it).
+// C15: after a step whose hook reported a failedMessage no further hook of the chain is run and
+// the answer carries that very message.
 //@ func (*ShellOperator).conversionEventHandler
 //@   prop C15
-//@   modifies nothing
+//@   requires lastFailedMsg == ""
+//@   modifies lastFailedMsg
+//@   ensures [failed-message-relayed] result1 == nil && lastFailedMsg != "" ==> result0 != nil && result0.FailedMessage == lastFailedMsg
 //@   loop 1
-//@     invariant true
+//@     invariant [no-step-after-failure] lastFailedMsg == ""
 //@   loop 2
-//@     invariant true
+//@     invariant [no-step-after-failure] lastFailedMsg == ""
